@@ -641,4 +641,5 @@ def rule_scope(ctx):
 
 
 def run(ctx):
-    return [rule_w1(ctx), rule_p2(ctx), rule_scope(ctx), rule_V3_attr(ctx, rid='C36-V3')]
+    from ..rules import slicenorm
+    return [rule_w1(ctx), rule_p2(ctx), rule_scope(ctx), rule_V3_attr(ctx, rid='C36-V3'), slicenorm.rule_slice(ctx)]
